@@ -368,6 +368,30 @@ fn c01_shared_token_types(seed: u64, idx: usize, cache: &TableCache, rcache: &Re
     case_find_with(seed, idx, "C01", Some((spec, inputs)), cache, rcache, out, st);
 }
 
+/// C01: a negated POSIX item as the only item of a negated bracket (two negations cancel), next to
+/// the singly negated forms.
+fn c01_double_negation(seed: u64, idx: usize, cache: &TableCache, rcache: &RefCache, out: &mut String, st: &mut Stats) {
+    let mut r = Rng::derive(seed ^ 0x0c01_d0e6, idx as u64);
+    const KINDS: [&str; 6] = ["alpha", "digit", "upper", "lower", "space", "punct"];
+    let k = *r.pick(&KINDS);
+    let k2 = *r.pick(&KINDS);
+    let mut pats = vec![
+        format!("[^[:^{}:]]+", k),
+        format!("[^[:^{}:]]+", k2),
+        format!("[[:^{}:]x]", k),
+        "[^\\s]".to_string(),
+    ];
+    r.shuffle(&mut pats);
+    let spec = vec![ModeSpec {
+        name: "INITIAL".to_string(),
+        patterns: pats.into_iter().enumerate().map(|(i, p)| PatSpec { pattern: p, tid: i, lookahead: None }).collect(),
+        transitions: vec![],
+    }];
+    let inputs = vec!["abc 123 XY;z".to_string(), "ÄÖ x Y 9,".to_string(), "a1B2 \t.".to_string()];
+    st.count("doubly_negated_posix_items_in_patterns", 1);
+    case_find_with(seed, idx, "C01", Some((spec, inputs)), cache, rcache, out, st);
+}
+
 /// C01: bracketed classes with an item that lies inside another item of the same class
 /// (`[a-z0-9_e]`, `[ -~a-f]`, `[a-zc-e]`), and inputs with characters of the enclosing range beyond
 /// the enclosed item.
@@ -422,7 +446,11 @@ fn case_find(seed: u64, idx: usize, suite: &str, cache: &TableCache, rcache: &Re
 
 fn case_find_with(seed: u64, idx: usize, suite: &str, preset: Option<(Vec<ModeSpec>, Vec<String>)>, cache: &TableCache, rcache: &RefCache, out: &mut String, st: &mut Stats) {
     if preset.is_none() && suite == "C01" && idx >= EXTRA_BASE {
-        return if idx % 2 == 0 { c01_shared_token_types(seed, idx, cache, rcache, out, st) } else { c01_nested_class_items(seed, idx, cache, rcache, out, st) };
+        return match idx % 3 {
+            0 => c01_shared_token_types(seed, idx, cache, rcache, out, st),
+            1 => c01_nested_class_items(seed, idx, cache, rcache, out, st),
+            _ => c01_double_negation(seed, idx, cache, rcache, out, st),
+        };
     }
     if preset.is_none() && (suite == "C04" || suite == "C05") && idx >= EXTRA_BASE {
         return c05_long_lookahead(seed, idx, suite, cache, rcache, out, st);
@@ -821,7 +849,21 @@ fn case_iter(seed: u64, idx: usize, suite: &str, cache: &TableCache, out: &mut S
             let _ = ScannerBuilder::new().add_scanner_modes(&cfggen::to_modes(&sib)).build();
             ScannerBuilder::new().add_scanner_modes(&modes).build()
         } else {
-            ScannerBuilder::new().add_scanner_modes(&modes).build_uncached()
+            // the modes reach the builder in several calls (`add_scanner_mode`, `add_scanner_modes`
+            // on a builder that already holds modes): mode k is the k-th mode added
+            let split = r2.below(modes.len() + 1);
+            match r2.below(4) {
+                0 => ScannerBuilder::new().add_scanner_modes(&modes[..split]).add_scanner_modes(&modes[split..]).build_uncached(),
+                1 => {
+                    let mut b = ScannerBuilder::new();
+                    for m in modes.iter() {
+                        b = b.add_scanner_mode(m.clone());
+                    }
+                    b.build_uncached()
+                }
+                2 if !modes.is_empty() => ScannerBuilder::new().add_scanner_mode(modes[0].clone()).add_scanner_modes(&modes[1..]).build_uncached(),
+                _ => ScannerBuilder::new().add_scanner_modes(&modes).build_uncached(),
+            }
         }
     }));
     if cached {
@@ -842,6 +884,11 @@ fn case_iter(seed: u64, idx: usize, suite: &str, cache: &TableCache, out: &mut S
         Ok(Ok(s)) => s,
     };
     let dump = scanner.verif_dump();
+    if dump.modes.len() != spec.len() {
+        let _ = writeln!(out, "case {}\nexpect case {}\n# {}", idx, idx, describe(&spec).replace('\n', "\\n"));
+        let _ = writeln!(out, "oracle FAIL the scanner has {} modes, the configuration it was built from has {}\nexpect oracle", dump.modes.len(), spec.len());
+        return;
+    }
     let tables = cache.tables(&scanner, &dump);
     let desc = describe(&spec).replace('\n', "\\n");
     let _ = writeln!(out, "case {}", idx);
@@ -1772,6 +1819,17 @@ fn c08_fixed(rcache: &RefCache, out: &mut String, st: &mut Stats) {
                 }
             }
         }
+    }
+    // chains of one set operator with three and more operands (left-nested), doubly negated POSIX
+    // items
+    const CHAINS: [&str; 14] = [
+        "[a-c~~b-d~~c-e]", "[\\w~~\\d~~0-4]", "[a-z&&b-y&&c-x]", "[a-z--b-c--x]", "[^a-c~~b-d~~c-e]", "[a-c~~b-d~~c-e~~d-f]",
+        "[[a-c~~b-d]~~c-e]", "[a-c~~[b-d~~c-e]]", "[^[:^alpha:]]", "[^[:^digit:]]", "[^[^[:^alpha:]]]", "[x[^[:^upper:]]]",
+        "[a-e~~b-d~~c]", "[\\d~~\\d~~\\d]",
+    ];
+    for (k, text) in CHAINS.iter().enumerate() {
+        class_case(2_100_000 + k, text, rcache, out, st);
+        st.count("operator_chains_and_double_negations", 1);
     }
     for (i, text) in seen.iter().enumerate() {
         class_case(2_000_001 + i, text, rcache, out, st);
@@ -2827,6 +2885,24 @@ fn case_c15(seed: u64, idx: usize, out: &mut String, st: &mut Stats) {
         }
         st.count("unsupported_spelling_behind_its_supported_twin", 1);
     }
+    // flag groups that only switch flags off (the flag list starts with the negation item)
+    let mut r7 = Rng::derive(seed ^ 0x0c15_f1a6, idx as u64);
+    if r7.chance(5) {
+        let f = *r7.pick(&["(?-i:a)", "(?-s:.)", "(?-u:b)", "(?-is:a)", "(?-m)", "(?-x:a b)", "(?-i)a"]);
+        let text = match r7.below(3) {
+            0 => f.to_string(),
+            1 => format!("c(y|(z{})*)+w", f),
+            _ => format!("x{}y", f),
+        };
+        let m = r7.below(spec.len());
+        let k = r7.below(spec[m].patterns.len());
+        if r7.chance(30) {
+            spec[m].patterns[k].lookahead = Some((r7.chance(50), text));
+        } else {
+            spec[m].patterns[k].pattern = text;
+        }
+        st.count("flag_groups_that_only_negate", 1);
+    }
     // deeply nested supported patterns (17 and more levels of groups, repeated alternations, classes)
     let mut r6 = Rng::derive(seed ^ 0x0c15_dee9, idx as u64);
     if r6.chance(5) {
@@ -2991,6 +3067,16 @@ fn case_c16(seed: u64, idx: usize, cache: &TableCache, out: &mut String, st: &mu
         spec[m].transitions.dedup_by_key(|t| t.0);
         st.count("transition_tables_with_31_to_260_entries", 1);
     }
+    // transitions to mode numbers of 2^32 and more on token types no pattern produces (the
+    // configuration type is `usize` everywhere)
+    if extra && idx % 4 == 0 {
+        let m = r5.below(spec.len());
+        let free = spec[m].patterns.iter().map(|p| p.tid).chain(spec[m].transitions.iter().map(|t| t.0)).filter(|t| *t < (1usize << 40)).max().unwrap_or(0) + 3;
+        spec[m].transitions.push((free, (1usize << 32) + 1 + r5.below(5)));
+        spec[m].transitions.push((free + 2, usize::MAX - r5.below(3)));
+        spec[m].transitions.sort();
+        st.count("transitions_to_mode_numbers_of_2^32_and_more", 1);
+    }
     let renumbered = extra && idx % 2 == 1;
     st.cases += 1;
     let unsorted = r2.chance(20) && !renumbered;
@@ -3001,7 +3087,7 @@ fn case_c16(seed: u64, idx: usize, cache: &TableCache, out: &mut String, st: &mu
             }
             if !m.transitions.is_empty() && r2.chance(40) {
                 let t = m.transitions[0];
-                m.transitions.push((t.0, (t.1 + 1) % 3));
+                m.transitions.push((t.0, (t.1 % 3 + 1) % 3));
             }
         }
         st.count("transition_tables_unsorted_or_with_repeated_token_types", 1);
@@ -3704,7 +3790,9 @@ fn extra_cases(suite: &str, n: usize) -> usize {
 
 fn main() {
     // silence panic messages of caught panics
-    std::panic::set_hook(Box::new(|_| {}));
+    if std::env::var("VERIF_PANIC_MSG").is_err() {
+        std::panic::set_hook(Box::new(|_| {}));
+    }
     let args = parse_args();
     let cache = Arc::new(TableCache::default());
     let rcache = Arc::new(RefCache::default());
